@@ -94,6 +94,37 @@ def json_values(tier):
     return out
 
 
+def float_texts(tier):
+    """Decimal texts of finite floats: (text valid both as JSON and as a Noulith literal). Every short mantissa against every
+    exponent in a window (with and without a decimal point, the two lexer routes), plus 17-digit shortest renderings of
+    non-decimal values at several magnitudes and the extremes of the format."""
+    out = []
+    mants = ["1", "2", "3", "5", "7", "9", "17", "123"] if tier == "quick" else ["1", "2", "3", "4", "5", "6", "7", "8", "9", "17", "25", "123", "4503599627370497", "9007199254740993"]
+    exps = range(-26, 27) if tier == "quick" else range(-45, 46)
+    for m in mants:
+        for e in exps:
+            out.append("%se%d" % (m, e))
+            if tier != "quick" or e % 3 == 0:
+                out.append("%s.0e%d" % (m, e))
+                out.append("%s.5e%d" % (m, e))
+    vals = [1 / 3, 2 / 3, 0.1 + 0.2, 1e23, 8.41e21, 2 ** 0.5, 5e-324, 2.2250738585072014e-308, 2.225073858507201e-308, 1.7976931348623157e308, 9007199254740993.0, 0.1, 123456.789e3]
+    for v in vals:
+        for k in ((0, -31, 40, -300, 290) if tier != "quick" else (0, -31)):
+            w = v * 10.0 ** k if k else v
+            if w != w or w in (float("inf"), 0.0):
+                continue
+            t = repr(w)
+            out.append(t.replace("e+", "e"))
+            out.append("-" + t.replace("e+", "e"))
+    seen = set()
+    res = []
+    for t in out:
+        if t not in seen:
+            seen.add(t)
+            res.append(t)
+    return res
+
+
 def canon_json(v):
     if v is None:
         return None
@@ -139,7 +170,7 @@ def bounds(tier):
     return {"int_operands": len(int_operands(tier)), "bases": "2..36",
             "byte_strings": "len<=1 all, len 2..3 over 16 symbols" if tier == "quick" else "len<=2 all, len 3 over 12 symbols, len 4 over 7 symbols",
             "unicode": "boundary neighbourhoods" if tier == "quick" else "every scalar value 0..0x10FFFF plus surrogates and beyond",
-            "json_values": len(json_values(tier))}
+            "json_values": len(json_values(tier)), "float_texts": len(float_texts(tier))}
 
 
 def cases(tier, shard, nshards):
@@ -257,6 +288,21 @@ def cases(tier, shard, nshards):
             continue
         yield Case("json_decode(%s)" % lit_str(t), {"f": "json", "v": v, "op": "literal"})
         yield Case("json_decode(json_encode(json_decode(%s)))" % lit_str(t), {"f": "json", "v": v, "op": "literal"})
+    # ---------- F: finite floats as decimal text (literal route, JSON route, and the round trips)
+    for t in float_texts(tier):
+        n += 1
+        if n % nshards != shard:
+            continue
+        v = float(t)
+        lit = "(%s)" % t
+        meta = {"f": "json", "v": v, "flt": 1}
+        yield Case(lit, dict(meta, op="literal"))
+        yield Case("json_decode(%s)" % lit_str(t), dict(meta, op="literal"))
+        yield Case("json_decode(%s)" % lit_str(t.replace("e", "E")), dict(meta, op="literal"))
+        yield Case("json_decode(json_encode(%s)) == %s" % (lit, lit), dict(meta, op="law"))
+        yield Case("json_decode(json_encode(%s))" % lit, dict(meta, op="literal"))
+        yield Case("eval(repr(%s))" % lit, dict(meta, op="literal"))
+        yield Case("json_decode(%s) == %s" % (lit_str(t), lit), dict(meta, op="law"))
     # ---------- E: JSON-shaped values
     for (v, lit, txt) in json_values(tier):
         n += 1
@@ -353,7 +399,7 @@ def sigof(m):
         cp = int(m["cp"])
         return "C16 chr/ord range=%s" % ("surrogate" if 0xd800 <= cp <= 0xdfff else "beyond" if cp >= 0x110000 or cp < 0 else "bmp" if cp < 0x10000 else "astral")
     if f == "json":
-        return "C16 json op=%s" % m["op"]
+        return "C16 json op=%s%s" % (m["op"], " float-text" if m.get("flt") else "")
     return "C16 ?"
 
 
